@@ -112,6 +112,7 @@ def run(chk):
     chk.section("tuple-unpacking", lambda: tuple_unpacking(chk))
     chk.section("array-comprehension", lambda: array_comprehension(chk))
     chk.section("borrowed-element-write-back", lambda: borrowed_element(chk))
+    chk.section("row-overwrite", lambda: row_overwrite(chk))
     for i in range(NCH_B):
         chk.section(f"bounded-{i}", lambda i=i: bounded(chk, i))
     chk.expected_min_obligations = 20
@@ -159,6 +160,53 @@ def borrowed_element(chk):
     The obligations are those of ExprCompiler._update_inout_ports (shared with C07)."""
     from .C07 import ports
     ports(chk, tag="borrowed-element:", replay=lambda m_: {"script": REPLAY_BORROW_ELEM, "input": {}})
+
+
+REPLAY_ROW = r'''
+import guppy_plainbool
+import tempfile, importlib.util, os, sys, shutil
+I = INPUT
+src = f"""from guppylang import guppy
+from guppylang.std.builtins import array, result
+@guppy
+def main() -> None:
+    xss = array(array(1, 2), array(3, 4), array(5, 6))
+    xss[{I['i']}] = array(7, 8)
+    result("x00", xss[0][0]); result("x01", xss[0][1]); result("x10", xss[1][0]); result("x11", xss[1][1]); result("x20", xss[2][0]); result("x21", xss[2][1])
+"""
+d = tempfile.mkdtemp(dir=os.environ.get("TMPDIR", "/var/tmp")); fn = os.path.join(d, "replay_c19r.py"); open(fn, "w").write(src)
+spec = importlib.util.spec_from_file_location("replay_c19r", fn); m = importlib.util.module_from_spec(spec); sys.modules["replay_c19r"] = m
+spec.loader.exec_module(m)
+try:
+    got = [int(v) for t, v in list(m.main.emulator(n_qubits=1).run().results)[0].entries]
+except Exception as ex:
+    got = "PANIC: " + str(ex)[:120] if "anic" in str(ex) else "ERROR: " + repr(ex)[:200]
+shutil.rmtree(d, ignore_errors=True)
+rows = [[1, 2], [3, 4], [5, 6]]
+if 0 <= I["i"] < 3:
+    rows[I["i"]] = [7, 8]; want = [v for r in rows for v in r]
+else:
+    want = "PANIC"
+ok = got == want or (want == "PANIC" and isinstance(got, str) and got.startswith("PANIC"))
+print(json.dumps({"violates": not ok, "evaluations": 1, "observed": got, "required": want, "detail": f"xss[{I['i']}] = array(7, 8) on a 3x2 array: {got}, list semantics {want}"}))
+'''
+
+
+def row_overwrite(chk):
+    """BOUNDED: writing element i of an array whose elements are arrays (a non-copyable but droppable element
+    type) replaces exactly row i; an index outside 0..n-1 panics."""
+    import json
+    from pyvc.report import run_replay
+    for i in (0, 1, 2, 3, -1):
+        res = run_replay(REPLAY_ROW, {"i": i}, chk.repo, timeout=900)
+        if "evaluations" not in res:
+            chk.undecided(f"bounded:row-overwrite[i={i}]", "oracle run failed: " + json.dumps(res)[:600])
+            continue
+        o = chk.bounded_result(f"bounded:row-overwrite[xss[{i}] = array(7, 8) on a 3x2 array]:exactly-row-i-replaced-or-panic-outside-0..2", not res.get("violates"), 1,
+                               detail=res.get("detail"), witness={"i": i, "observed": res.get("observed")} if res.get("violates") else None,
+                               func="guppylang_internals.std._internal.compiler.array:ArraySetitemCompiler.compile_with_inouts")
+        if res.get("violates"):
+            o.replay.update({"script": REPLAY_ROW, "input": {"i": i}})
 
 
 class Pfx:
